@@ -1508,6 +1508,18 @@ mainloop:
 					if errors.Is(res.err, middleware.ErrRecursionWorkLimit) {
 						return nil, res.err
 					}
+					// This lookup's own expiry is not an authority
+					// failure either. An exchange cut short by the
+					// caller's deadline can deliver its error here
+					// before ctx.Done() is observed; filed with the
+					// authorities' errors it would come back as "all
+					// servers failed" — a shared verdict that fails
+					// every caller collapsed onto this lookup and is
+					// recorded against the zone. Report it as what it
+					// is, so it stays with this caller.
+					if ctxErr := contextutil.EffectiveError(ctx); ctxErr != nil {
+						return nil, ctxErr
+					}
 					fatalErrors = append(fatalErrors, res.err)
 
 					if left > 0 && len(serversList)-1 == index {
